@@ -1467,3 +1467,69 @@ func ruleHeaders(r *Report) {
 	}
 	_ = strings.TrimSpace
 }
+
+// ruleExactReads (C13.exact): on the decode path every payload is read with an exact-length
+// primitive. io.ReadAll / io.Copy / io.LimitReader / io.ReadAtLeast and a bare Reader.Read return
+// fewer bytes than announced without an error when the stream ends, which is exactly what a
+// truncated file produces.
+// takesReader: the function receives (or is a method of) a stream reader.
+func takesReader(fn *ssa.Function) bool {
+	for _, p := range fn.Params {
+		t := p.Type()
+		if isNamed(t, "io", "Reader") || isNamed(t, "github.com/kelindar/iostream", "Reader") {
+			return true
+		}
+	}
+	return false
+}
+
+func ruleExactReads(r *Report) {
+	h := r.Rule("C13.exact", "who-may-call", "the decode path (Commit.ReadFrom, Buffer.ReadFrom, readChunksFrom, readState and the library helpers they call) reads payloads only with exact-length primitives (iostream.Reader's typed reads, io.ReadFull): no io.ReadAll, io.Copy, io.LimitReader, io.ReadAtLeast or bare Read, which turn a short stream into a short value without an error", 4)
+	roots := []string{"(*commit.Commit).ReadFrom", "(*commit.Buffer).ReadFrom", "commit.readChunksFrom", "(*column.Collection).readState", "(*commit.Log).Range"}
+	seen := map[*ssa.Function]bool{}
+	var visit func(fn *ssa.Function, depth int)
+	visit = func(fn *ssa.Function, depth int) {
+		if fn == nil || fn.Blocks == nil || seen[fn] || depth > 5 || !r.P.InLib(fn) {
+			return
+		}
+		seen[fn] = true
+		var bad ssa.Instruction
+		what := ""
+		withClosures(fn, func(f *ssa.Function) {
+			allInstrs(f, func(ins ssa.Instruction) {
+				cc, _, _ := callCommon(ins)
+				if cc == nil {
+					return
+				}
+				if sc := cc.StaticCallee(); sc != nil {
+					if sc.Pkg != nil && sc.Pkg.Pkg.Path() == "io" {
+						switch sc.Name() {
+						case "ReadFull":
+						case "ReadAll", "Copy", "CopyN", "CopyBuffer", "LimitReader", "ReadAtLeast", "TeeReader", "NewSectionReader":
+							bad, what = ins, "io."+sc.Name()
+						}
+					}
+					if sc.Pkg != nil && (sc.Pkg.Pkg.Path() == "io/ioutil" || sc.Pkg.Pkg.Path() == "bufio") {
+						bad, what = ins, sc.Pkg.Pkg.Name()+"."+sc.Name()
+					}
+					if topFn(sc) != topFn(f) && takesReader(sc) {
+						visit(sc, depth+1)
+					}
+				} else if cc.IsInvoke() && cc.Method.Name() == "Read" {
+					bad, what = ins, "a bare Read"
+				}
+			})
+		})
+		n := fnName(fn)
+		if bad != nil {
+			h.Bad(n, r.P.InstrPos(bad), "uses "+what+" on the decode path: a stream that ends early yields a shorter value without an error, and a partial commit or block is applied")
+		} else {
+			h.OK(n, r.P.Pos(fn.Pos()), "")
+		}
+	}
+	for _, n := range roots {
+		if fn := r.Anchor(n); fn != nil {
+			visit(fn, 0)
+		}
+	}
+}
